@@ -85,6 +85,13 @@ func txCases(r *evid.Run) []txCase {
 		seed := uint64(r.Seed)*1_000_003 + uint64(1_000_000+j)*7919 + 16
 		out = append(out, txCase{Index: len(out), Seed: seed, Profile: "keymanager", Blocks: fuzzBlocks + 12, PerBlock: per, RunSeed: r.Seed})
 	}
+	// Histories on the VRF beacon backend (appended, so the cases above stay what they were): the pool then
+	// holds beacon.VRFProve transactions of the current epoch, whose mutants (proof bytes, epoch) are
+	// delivered after the node's valid proof of the same block has been stored.
+	for j, k := 0, r.Pick(4, 100); j < k; j++ {
+		seed := uint64(r.Seed)*1_000_003 + uint64(2_000_000+j)*7919 + 16
+		out = append(out, txCase{Index: len(out), Seed: seed, Profile: "vrf", Blocks: fuzzBlocks + 12, PerBlock: per, RunSeed: r.Seed})
+	}
 	return out
 }
 
@@ -807,6 +814,18 @@ func txChildMain(caseJSON, scratch string) {
 	f.st.Extra["epoch_transitions"] += int64(h.EpochTransitions)
 	if h.PreconditionLost != "" {
 		f.st.Extra["histories_precondition_lost"]++
+	}
+	if vm := h.VRFMon; vm != nil { // VRF beacon backend: what the history exercised of it
+		f.st.Extra["histories_with_vrf"]++
+		f.st.Extra["vrf.epochs"] += int64(vm.Epochs)
+		f.st.Extra["vrf.epochs_with_weak_alpha"] += int64(vm.WeakAlphaEpochs)
+		f.st.Extra["vrf.proofs_accepted"] += int64(vm.ProofsAccepted)
+		f.st.Extra["vrf.elections_checked"] += int64(vm.Elections)
+		f.st.Extra["vrf.committees_elected"] += int64(vm.Committees)
+		for k, n := range vm.Refused {
+			f.st.Extra["vrf.refused."+k] += int64(n)
+		}
+		f.st.Extra["vrf.monitor_problems_(see_C14)"] += int64(len(vm.Problems))
 	}
 
 	// Verdicts on the history.
